@@ -764,6 +764,9 @@ func (inst *Instance) declare(c *cli.Cmd, cd *CmdDecl, d *Decl) {
 		if d.live {
 			def = d.liveInts
 		}
+		if d.sharedWith != nil && d.sharedWith.live {
+			def = d.sharedWith.liveInts
+		}
 		var prm cli.IntsParam
 		if d.IsArg {
 			prm = cli.IntsArg{Name: d.Name, Desc: d.Desc, EnvVar: env, Value: def, HideValue: d.HideValue, SetByUser: bv.sbu}
@@ -787,6 +790,9 @@ func (inst *Instance) declare(c *cli.Cmd, cd *CmdDecl, d *Decl) {
 		}
 		if d.live {
 			def = d.liveFloats
+		}
+		if d.sharedWith != nil && d.sharedWith.live {
+			def = d.sharedWith.liveFloats
 		}
 		var prm cli.Floats64Param
 		if d.IsArg {
